@@ -15,7 +15,12 @@
 //!  F4  every Cmap14 with <= 2 selectors, each with default ranges (absent / 0..2 ranges) and
 //!      non-default mappings (absent / 0..2 mappings), built from the generated write types
 //!
-//! Oracle = the input mapping itself (sorted vector + binary search).
+//!  F5..F9 see the functions below; F10..F13 (sub-table selection incl. symbol maps, hand-encoded format 4,
+//!      idDelta / sign-bit / surrogate-gap boundaries, plane-16 variation sequences) are in audit.rs
+//!
+//! Oracle = the input mapping itself (sorted vector + binary search), and independently of the library's
+//! readers the from-specification decoder in spec.rs run on the compiled bytes (AUDIT.md lists what
+//! each clause is there for).
 
 use font_types::{GlyphId, Tag, Uint24};
 use rayon::prelude::*;
@@ -30,6 +35,9 @@ use vcore::*;
 use write_fonts::tables::cmap as wc;
 use write_fonts::tables::maxp::Maxp;
 use write_fonts::{dump_table, FontBuilder};
+
+mod audit;
+mod spec;
 
 fn main() {
     main_for("C08", body)
@@ -138,6 +146,62 @@ thread_local! {
     static CASE_OVERRIDE: std::cell::RefCell<Option<Value>> = const { std::cell::RefCell::new(None) };
 }
 
+thread_local! {
+    /// set while a hand-encoded sub-table is checked: explicit glyph-0 entries are legal there and are
+    /// filtered from the low-level enumerations; the glyph-id count of the length formula is given
+    static HAND: std::cell::Cell<Option<usize>> = const { std::cell::Cell::new(None) };
+}
+
+/// The compiled bytes decoded by the specification's procedures (spec.rs, no library code): header
+/// invariants of every format-4 / format-12 sub-table and the table-level answer for every query.
+fn spec_check(font_bytes: &[u8], m: &Mapping, queries: &[u32]) -> Result<(), (String, String)> {
+    let bad = |e: String| ("from-spec decode of the compiled cmap: structure violates the specification".to_string(), e);
+    thread_local! {
+        static RECS: std::cell::RefCell<Vec<spec::Rec>> = const { std::cell::RefCell::new(Vec::new()) };
+    }
+    let cmap = spec::cmap_of_font(font_bytes).map_err(bad)?;
+    // per-thread scratch buffer: this runs once per case in the hot loops
+    let mut recs = RECS.with(|r| std::mem::take(&mut *r.borrow_mut()));
+    let r = spec_check_records(cmap, &mut recs, m, queries);
+    RECS.with(|c| *c.borrow_mut() = recs);
+    r
+}
+
+fn spec_check_records(cmap: &[u8], recs: &mut Vec<spec::Rec>, m: &Mapping, queries: &[u32]) -> Result<(), (String, String)> {
+    let bad = |e: String| ("from-spec decode of the compiled cmap: structure violates the specification".to_string(), e);
+    spec::records_into(cmap, recs).map_err(bad)?;
+    let recs: &[spec::Rec] = recs;
+    for (i, r) in recs.iter().enumerate() {
+        // sub-tables shared by several records are checked once
+        if recs[..i].iter().any(|p| p.offset == r.offset) {
+            continue;
+        }
+        match r.format {
+            4 => spec::check4(cmap, r.offset, HAND.with(|h| h.get())).map_err(|e| {
+                ("from-spec decode of the compiled cmap: format-4 header / arrays violate the specification".to_string(), e)
+            })?,
+            12 => spec::check12(cmap, r.offset).map_err(|e| {
+                ("from-spec decode of the compiled cmap: format-12 header / groups violate the specification".to_string(), e)
+            })?,
+            _ => {}
+        }
+    }
+    for &c in queries {
+        let got = spec::lookup(cmap, recs, c).map_err(bad)?;
+        let exp = expected(m, c);
+        if got != exp.map_or(0, |g| g as u32) {
+            return Err((
+                format!("from-spec decode of the compiled cmap: {}", match exp {
+                    Some(_) => format!("wrong glyph for a mapped character ({})", region(c)),
+                    None => format!("a glyph for an unmapped character ({})", region(c)),
+                }),
+                format!("U+{c:04X} decodes to glyph {got}, input says {exp:?}"),
+            ));
+        }
+    }
+    Ok(())
+}
+
 fn case_json(m: &Mapping, full_bmp: bool) -> Value {
     if let Some(v) = CASE_OVERRIDE.with(|c| c.borrow().clone()) {
         return v;
@@ -184,7 +248,7 @@ fn format4_header_mismatch(t: &rc::Cmap4) -> Option<String> {
         .filter(|i| t.id_range_offsets()[*i].get() != 0)
         .map(|i| (t.end_code()[i].get() as usize).saturating_sub(t.start_code()[i].get() as usize) + 1)
         .sum();
-    let len = 16 + 8 * seg as usize + 2 * ids;
+    let len = 16 + 8 * seg as usize + 2 * HAND.with(|h| h.get()).unwrap_or(ids);
     if t.length() as usize != len {
         return Some(format!("length field {} for a {len}-byte sub-table", t.length()));
     }
@@ -493,11 +557,33 @@ fn check_compiled(run: &Run, m: &Mapping, full_bmp: bool, font_bytes: &[u8], l: 
             one(c - 1);
         }
     }
+    // a 16-bit table must not answer for a code point that merely has the same low 16 bits, nor a
+    // 21-bit one for anything beyond U+10FFFF: every mapped character shifted by whole planes / high bits
+    thread_local! {
+        static QUERIES: std::cell::RefCell<Vec<u32>> = const { std::cell::RefCell::new(Vec::new()) };
+    }
+    let mut spec_queries: Vec<u32> = QUERIES.with(|q| std::mem::take(&mut *q.borrow_mut()));
+    spec_queries.clear();
+    spec_queries.extend([0, 0xFFFF, 0x110000]);
+    for &(c, _) in m.iter() {
+        spec_queries.extend([c.saturating_sub(1), c, c + 1]);
+        // one plane up / the low 16 bits for every mapped character; the high-bit variants for the first
+        let first = c == m[0].0;
+        let aliases: [u32; 2] = if c <= 0xFFFF { [c + 0x10000, c | 0xFFFF_0000] } else { [c & 0xFFFF, c.wrapping_add(0xFFF0_0000)] };
+        for &alias in &aliases[..if first { 2 } else { 1 }] {
+            one(alias);
+            spec_queries.push(alias);
+        }
+    }
     if full_bmp {
         for c in 0..=0xFFFFu32 {
             one(c);
         }
     }
+    if let Err((id, what)) = spec_check(font_bytes, m, &spec_queries) {
+        run.violation(&id, &format!("mapping {:x?}: {what}", m), case_json(m, full_bmp));
+    }
+    QUERIES.with(|q| *q.borrow_mut() = spec_queries);
     // the MetadataProvider route must be the same object
     for &(c, g) in m.iter().take(2) {
         if charmap2.map(c) != Some(GlyphId::new(g as u32)) {
@@ -519,6 +605,7 @@ fn check_compiled(run: &Run, m: &Mapping, full_bmp: bool, font_bytes: &[u8], l: 
             .take(cap)
             .map(|(c, g)| (c, g.to_u32()))
             .filter(|e| !(e.0 == 0xFFFF && e.1 == 0))
+            .filter(|e| !(HAND.with(|h| h.get()).is_some() && e.1 == 0))
             .collect();
         if let Some((id, detail)) = diff_enumeration(&got, &exp_bmp) {
             run.violation(
@@ -537,6 +624,36 @@ fn check_compiled(run: &Run, m: &Mapping, full_bmp: bool, font_bytes: &[u8], l: 
                 &format!("mapping {:x?}: {detail}; iter gave {:x?}", m, &got[..got.len().min(12)]),
                 case_json(m, full_bmp),
             );
+        }
+    }
+    // Cmap12::iter_with_limits: limits that admit every input pair (the font's, the type's default, and
+    // the tightest admissible ones) must not lose a pair; limits one below the largest character /
+    // glyph cut exactly the pairs beyond them (groups have ascending glyph ids, so a cut group ends there)
+    for t in &c12 {
+        let (Some(maxc), Some(maxg)) = (exp_all.last().map(|e| e.0), exp_all.iter().map(|e| e.1).max()) else { continue };
+        let lims = [
+            ("the font's default limits", rc::Cmap12IterLimits::default_for_font(&font)),
+            ("Cmap12IterLimits::default()", rc::Cmap12IterLimits::default()),
+            ("the tightest admissible limits", rc::Cmap12IterLimits { max_char: maxc, glyph_count: maxg + 1 }),
+            ("max_char one below the last character", rc::Cmap12IterLimits { max_char: maxc.saturating_sub(1), glyph_count: maxg + 1 }),
+            ("glyph_count equal to the largest glyph id", rc::Cmap12IterLimits { max_char: maxc, glyph_count: maxg }),
+        ];
+        for (name, lim) in lims {
+            l.trans += 1;
+            let admitted = |e: &(u32, u32)| e.0 <= lim.max_char && e.1 < lim.glyph_count;
+            // allocation-free comparison first; the lists are only materialised for the report
+            if t.iter_with_limits(lim).take(cap).map(|(c, g)| (c, g.to_u32())).eq(exp_all.iter().copied().filter(admitted)) {
+                continue;
+            }
+            let want: Vec<(u32, u32)> = exp_all.iter().copied().filter(admitted).collect();
+            let got: Vec<(u32, u32)> = t.iter_with_limits(lim).take(cap).map(|(c, g)| (c, g.to_u32())).collect();
+            if let Some((id, detail)) = diff_enumeration(&got, &want) {
+                run.violation(
+                    &format!("Cmap12::iter_with_limits ({name}) {id}"),
+                    &format!("mapping {:x?}, limits {lim:?}: {detail}; iter gave {:x?}", m, &got[..got.len().min(12)]),
+                    case_json(m, full_bmp),
+                );
+            }
         }
     }
     l.trans += 1;
@@ -834,12 +951,15 @@ const UVS_SELECTORS: [u32; 5] = [0xFE00, 0xFE01, 0xE0100, 0xFE0F, 0xE01EF];
 const UVS_RANGES: [(u32, u8); 5] = [(0x30, 0), (0x30, 2), (0x40, 255), (0x4E00, 0), (0x10000, 1)];
 const UVS_ND_CPS: [u32; 4] = [0x31, 0x41, 0x4E00, 0x10001];
 const UVS_ND_GIDS: [u16; 2] = [5, 0xFFFE];
-const UVS_QUERY_CPS: [u32; 19] = [
+/// the last four: plane-16 boundaries (24-bit fields) and 0x41 with a bit above the 24-bit field
+const UVS_QUERY_CPS: [u32; 23] = [
     0x2F, 0x30, 0x31, 0x32, 0x33, 0x3F, 0x40, 0x41, 0x42, 0x13F, 0x140, 0x4DFF, 0x4E00, 0x4E01,
-    0xFFFF, 0x10000, 0x10001, 0x10002, 0x10FFFF,
+    0xFFFF, 0x10000, 0x10001, 0x10002, 0x10FFFF, 0xFFFFF, 0x100000, 0x10FFFE, 0x1000041,
 ];
-const UVS_QUERY_SELS: [u32; 12] = [
+/// the last one: U+FE00 with a bit above the 24-bit field
+const UVS_QUERY_SELS: [u32; 13] = [
     0xFDFF, 0xFE00, 0xFE01, 0xFE02, 0xFE0E, 0xFE0F, 0xFE10, 0xE00FF, 0xE0100, 0xE01EE, 0xE01EF, 0xE01F0,
+    0x100FE00,
 ];
 
 fn uvs_json(spec: &[SelSpec]) -> Value {
@@ -1043,9 +1163,38 @@ fn check_uvs_with(run: &Run, spec: &[SelSpec], base: &[(u32, u16)], pos: usize, 
             return;
         }
         let mut lookups = 0u64;
+        // the compiled bytes decoded by the specification's procedure (spec.rs; no library code)
+        let raw14 = spec::cmap_of_font(&font_bytes).and_then(|c| {
+            let recs = spec::records(c)?;
+            let r = recs.iter().find(|r| r.format == 14).copied().ok_or("no format-14 record")?;
+            Ok((c, r.offset))
+        });
+        let raw14 = match raw14 {
+            Ok(x) => x,
+            Err(e) => {
+                run.violation("from-spec decode of the compiled cmap: format-14 sub-table not found", &e, case());
+                return;
+            }
+        };
         for cp in UVS_QUERY_CPS {
             for sel in UVS_QUERY_SELS {
                 let exp = uvs_expected(spec, cp, sel);
+                {
+                    let conv = |v: Option<MapVariant>| match v {
+                        None => spec::Uvs::None,
+                        Some(MapVariant::UseDefault) => spec::Uvs::Default,
+                        Some(MapVariant::Variant(g)) => spec::Uvs::Glyph(g.to_u32() as u16),
+                    };
+                    let (e, a) = uvs_expected2(spec, cp, sel);
+                    match spec::lookup14(raw14.0, raw14.1, cp, sel) {
+                        Ok(got) if got == (conv(e), conv(a)) => {}
+                        other => run.violation(
+                            &format!("from-spec decode of the compiled Cmap14 bytes differs from the encoded sequences ({})", region(cp)),
+                            &format!("(U+{cp:04X}, U+{sel:04X}) decodes to {other:?}, encoded {e:?} / {a:?}; {spec:x?}"),
+                            case(),
+                        ),
+                    }
+                }
                 let kind = match exp {
                     Some(MapVariant::UseDefault) => "a default sequence",
                     Some(MapVariant::Variant(_)) => "a non-default sequence",
@@ -1539,10 +1688,13 @@ thread_local! {
 }
 
 /// The wrapper font of every high-level check. Compositions: 0 maxp + cmap; 1 also an empty (zero-length)
-/// glyf and a loca; 2 also zero-length tables whose tags sort before and after 'cmap'.
+/// glyf and a loca; 2 also zero-length tables whose tags sort before and after 'cmap'; 3 cmap alone.
 fn wrap_font(cmap: Vec<u8>) -> Vec<u8> {
     let mut b = FontBuilder::new();
-    b.add_raw(Tag::new(b"cmap"), cmap).add_raw(Tag::new(b"maxp"), maxp_bytes());
+    b.add_raw(Tag::new(b"cmap"), cmap);
+    if COMPOSITION.with(|c| c.get()) != 3 {
+        b.add_raw(Tag::new(b"maxp"), maxp_bytes());
+    }
     match COMPOSITION.with(|c| c.get()) {
         1 => {
             b.add_raw(Tag::new(b"glyf"), Vec::<u8>::new()).add_raw(Tag::new(b"loca"), vec![0u8, 0]);
@@ -1560,9 +1712,9 @@ fn wrap_font(cmap: Vec<u8>) -> Vec<u8> {
 /// F9: one representative of every family re-run with the two other font compositions (the high-level
 /// API reads cmap through the table directory, so directory offsets must survive empty neighbours).
 fn composition_family(run: &Run) {
-    run.bound("F9.compositions", json!(["maxp + cmap (all other families)", "+ zero-length glyf + loca", "+ zero-length tables sorting before and after cmap"]));
+    run.bound("F9.compositions", json!(["maxp + cmap (all other families)", "+ zero-length glyf + loca", "+ zero-length tables sorting before and after cmap", "cmap alone (no maxp: the documented 65535-glyph default limit applies)"]));
     let mut l = Local::new();
-    for comp in [1u8, 2] {
+    for comp in [1u8, 2, 3] {
         COMPOSITION.with(|c| c.set(comp));
         // F1: every mapping touching <= 1 point; two mixed BMP / supplementary ones
         check_mapping(run, &vec![], true, &mut l);
@@ -2006,7 +2158,11 @@ fn edge_family(run: &Run) {
 /// anything still panics (also inside worker threads) the run must end with a verdict (exit 1), never
 /// with a harness stop.
 fn family(run: &Run, name: &str, f: impl FnOnce()) {
-    if let Err(p) = guard(f) {
+    let t0 = run.elapsed();
+    let r = guard(f);
+    // reporting only; no decision depends on it
+    run.extra(&format!("wall_s.{name}"), json!(((run.elapsed() - t0) * 100.0).round() / 100.0));
+    if let Err(p) = r {
         run.violation(
             &format!("panic outside the per-case guards (family {name}): {} in {}", p.kind(), p.site()),
             &format!("{} ({}:{})", p.message, p.file, p.line),
@@ -2037,6 +2193,8 @@ fn body(run: &Run, replay: Option<&Value>) {
             Some("uvs") => check_uvs(run, &uvs_from_json(case), &mut l),
             Some("edge") => check_edge(run, case, &mut l),
             Some("uvs_counts") => check_uvs_counts(run, case, &mut l),
+            Some("selection") => audit::check_selection(run, case, &mut l),
+            Some("hand4") => audit::check_hand4(run, case, &mut l),
             Some("direct4") => println!("direct4 cases are re-run by the tier (F7, 9 cases)"),
             Some("combined") => {
                 let base: Vec<(u32, u16)> = case["mapping"]
@@ -2083,4 +2241,8 @@ fn body(run: &Run, replay: Option<&Value>) {
     family(run, "uvs_counts_family", || uvs_counts_family(run));
     family(run, "edge_family", || edge_family(run));
     family(run, "composition_family", || composition_family(run));
+    family(run, "selection_family", || audit::selection_family(run));
+    family(run, "handbuilt4_family", || audit::handbuilt4_family(run));
+    family(run, "delta_boundary_family", || audit::delta_boundary_family(run));
+    family(run, "uvs_plane16_family", || audit::uvs_plane16_family(run));
 }
